@@ -15,6 +15,7 @@ inductive Err where
   | keyError        -- unknown parameter / placeholder number
   | typeError       -- a SUB event with `None` as sub-stream
   | stopIteration   -- `next()` on an exhausted stream inside a generator (RuntimeError)
+  | attributeError  -- `None.format()`
   deriving DecidableEq, Repr, Inhabited
 
 instance {ε α} [DecidableEq ε] [DecidableEq α] : DecidableEq (Except ε α)
